@@ -1,1 +1,66 @@
-fn main() { eprintln!("stub"); }
+//! util_tools: runtime monitors for the small pure utilities and the iso literal
+//! parser of /repo (properties C07, C31, C32, C33). Each subcommand runs the real
+//! code on generated inputs and prints ONE JSON report line on stdout.
+//!
+//!   parse          --seed S --start A --count N [--progress F] [--hashes F] [--no-shrink]
+//!   parse-extreme  --kind K --n N
+//!   parse-text     --file F [--no-export]
+//!   gen            --seed S --start A --count N          (print generated inputs, for corpora)
+//!   resolve        --seed S --start A --count N [--progress F] [--hashes F] | --file F
+//!   carats         --seed S --start A --count N [--hashes F] | --file F --s A --e B
+//!   signed         --seed S --start A --count N [--hashes F] | --file F
+//!   distinct       F1 F2 ...                               (distinct u64 over hash files)
+mod ast;
+mod carats;
+mod isogen;
+mod parse;
+mod resolve;
+mod signed;
+mod util;
+
+/// Everything that walks or drops ASTs runs here: the AST can be as deep as the parser allows.
+const DRIVER_STACK: usize = 1 << 30;
+
+fn main() {
+    let argv: Vec<String> = std::env::args().collect();
+    let sub = argv.get(1).cloned().unwrap_or_default();
+    let rest: Vec<String> = argv.iter().skip(2).cloned().collect();
+    if sub == "distinct" {
+        util::distinct_cmd(&rest);
+        return;
+    }
+    util::install_panic_hook();
+    let run = move || {
+        let args = util::Args::parse(&rest);
+        match sub.as_str() {
+            "parse" => parse::cmd_mixed(&args),
+            "parse-extreme" => parse::cmd_extreme(&args),
+            "parse-text" => parse::cmd_text(&args),
+            "gen" => {
+                let (seed, start, count) = (args.u64("seed", 1), args.u64("start", 0), args.u64("count", 10));
+                for i in start..start + count {
+                    let c = isogen::mixed_case(seed, i);
+                    println!("{}", serde_json::json!({"index": i, "class": c.class, "text": c.text}));
+                }
+            }
+            "extreme-kinds" => println!("{}", serde_json::json!(isogen::EXTREME_KINDS)),
+            "resolve" => resolve::cmd(&args),
+            "carats" => carats::cmd(&args),
+            "signed" => signed::cmd(&args),
+            _ => {
+                eprintln!("usage: util_tools parse|parse-extreme|parse-text|gen|resolve|carats|signed|distinct ...");
+                std::process::exit(2);
+            }
+        }
+    };
+    if cfg!(miri) {
+        run();
+    } else {
+        std::thread::Builder::new()
+            .stack_size(DRIVER_STACK)
+            .spawn(run)
+            .expect("spawn driver thread")
+            .join()
+            .expect("driver thread");
+    }
+}
